@@ -309,6 +309,7 @@ namespace msgpack {
                         JSONCONS_VISITOR_RETURN;
                     }
                     write_timestamp(seconds, 0);
+                    end_value();
                     break;
                 }
                 case semantic_tag::epoch_milli:
@@ -337,6 +338,7 @@ namespace msgpack {
                     {
                         write_timestamp(0, 0);
                     }
+                    end_value();
                     break;
                 }
                 case semantic_tag::epoch_nano:
@@ -365,6 +367,7 @@ namespace msgpack {
                     {
                         write_timestamp(0, 0);
                     }
+                    end_value();
                     break;
                 }
                 default:
